@@ -402,6 +402,9 @@ impl<H: Hasher> Serializable for BatchMerkleProof<H> {
     }
 }
 
+/// Upper bound on the number of node vectors space is reserved for before they are actually read.
+const MAX_PREALLOCATED_NODE_VECTORS: usize = 256;
+
 impl<H: Hasher> Deserializable for BatchMerkleProof<H> {
     /// Parses internal nodes from the provided `source`, and constructs a batch Merkle proof
     /// from these nodes.
@@ -413,7 +416,8 @@ impl<H: Hasher> Deserializable for BatchMerkleProof<H> {
         let depth = source.read_u8()?;
         let num_node_vectors = source.read_usize()?;
 
-        let mut nodes = Vec::with_capacity(num_node_vectors);
+        // the count comes from untrusted input: do not let it drive the allocation
+        let mut nodes = Vec::with_capacity(num_node_vectors.min(MAX_PREALLOCATED_NODE_VECTORS));
         for _ in 0..num_node_vectors {
             // read the digests and add them to the node vector
             let digests = Vec::<_>::read_from(source)?;
